@@ -57,7 +57,8 @@ def letters():
     return L
 
 
-PRELUDES = {'plain': [], 'sigstate': ['sighandler 10', 'sighandler 13', 'sigmask 12', 'umask 027', 'openfd 0', 'openfd 1']}
+PRELUDES = {'plain': [], 'sigstate': ['sighandler 10', 'sighandler 13', 'sighandler 17'] + ['sigmask %d' % n for n in (1, 2, 3, 10, 12, 13, 14, 15, 17, 20, 21, 22)] + ['umask 027', 'openfd 0', 'openfd 1'],
+            'sigstate2': ['sighandler 1', 'sighandler 2', 'sighandler 14', 'sighandler 15', 'sigmask 13', 'umask 077']}
 
 
 def digest_eq(a, b):
@@ -79,7 +80,7 @@ def digest_eq(a, b):
 
 def run_letter(args):
     h, symfile, w, prelude, name, lines, reps, heap = args
-    script = ['syms ' + symfile, 'sinks pipe'] + prelude + ['lean 1']
+    script = ['syms ' + symfile, 'sinks pipe'] + prelude + ['lean 1', 'digest pre']
     script += lines + lines            # two warm-up rounds
     script += ['wantdigest 1', 'digest before'] + lines + ['digest after', 'wantdigest 0', 'noentry']
     for _ in range(reps):
@@ -102,7 +103,7 @@ def run(ck):
         jobs = []
         for pn, pl in PRELUDES.items():
             for name, lines in L.items():
-                if pn != 'plain' and not name.startswith(('out:', 'opt:errlog', 'ds:tty', 'ds:cwd')):
+                if pn != 'plain' and not name.startswith(('out:', 'opt:errlog', 'opt:overflow', 'ds:tty', 'ds:cwd', 'ds:login', 'ds:datetime', 'flt:exclude_spawns_of:zz')):
                     continue
                 jobs.append((v['h_exec'], symfile, os.path.join(ck.workdir, '%s-%s-%d' % (vname, pn, len(jobs))), pl, '%s|%s' % (pn, name), lines, reps, heap))
         for name, r in pmap(run_letter, jobs):
@@ -122,6 +123,11 @@ def run(ck):
                 d = digest_eq(a, b)
                 if d:
                     bad.append((what, d))
+            # process attributes must survive even the very FIRST call (library statics and heap may legitimately settle there)
+            if 'pre' in ds:
+                d = digest_eq({k: v for k, v in ds['pre'].items() if k in ('fds', 'env', 'cwd', 'umask', 'sigmask', 'sigact')}, {k: v for k, v in ds['end'].items() if k in ('fds', 'env', 'cwd', 'umask', 'sigmask', 'sigact')})
+                if d:
+                    bad.append(('process_attributes_changed_since_before_first_call', d))
             if heap:
                 if main.get('heap_delta_live_at_entry', 0) != 0:
                     bad.append(('heap_live_at_exec_entry', main.get('heap_delta_live_at_entry')))
